@@ -485,6 +485,12 @@ def oracle_mps(case) -> Result:
         if ch is not None:
             if not _finite_nonneg(res, 'mps', ch, metric=name, sampling='hard', **ctx):
                 return res
+            if alphas and c.requires_grad and not ch.requires_grad:
+                # the soft-sampled cost of this model reaches the coefficients: the hard-sampled
+                # one (straight-through arg-max) must reach them too
+                res.bad('hard-sampled-cost-has-no-gradient-path-to-the-coefficients', metric=name,
+                        **ctx)
+                return res
             if alphas and ch.requires_grad:
                 gh = safe_grad(res, 'cost-gradient', ch, [a for _, a in alphas])
                 for (qn, a), g in zip(alphas, gh):
